@@ -36,12 +36,27 @@ OPS = {
     "set-color": ["set", "color", "#112233"],
     "set-comment": ["set", "comment", "A comment"],
     "set-type": ["set", "type", "calendar"],
+    # the same operations as ONE request each to the WSGI application (git stores; a request must not be split into
+    # several separately published steps)
+    "http-create": ["http", "PUT", "c.ics", "T", "text/calendar"],
+    "http-replace": ["http", "PUT", "a.ics", "X2", "text/calendar"],
+    "http-replace-charset": ["http", "PUT", "a.ics", "X2", "text/calendar; charset=utf-8"],
+    "http-replace-no-content-type": ["http", "PUT", "a.ics", "X2", None],
+    "http-delete": ["http", "DELETE", "a.ics", None, None],
+    "http-set-displayname": ["http", "PROPPATCH", "displayname", "A name", None],
+    "http-set-color": ["http", "PROPPATCH", "color", "#112233", None],
 }
 PROPS = ["displayname", "description", "color", "comment", "type"]
 
 
 def applicable(prior, opname, kind):
     op = OPS[opname]
+    if op[0] == "http":
+        if kind == "vdir":
+            return False  # the web layer opens git stores only
+        if op[1] == "PROPPATCH":
+            return True
+        op = ["put" if op[1] == "PUT" else "delete", op[2]]
     names = set()
     for p in PRIORS[prior]:
         if p[0] == "put":
@@ -166,6 +181,9 @@ def _scenario(args):
         op = OPS[opname]
         target = op[1] if op[0] in ("put", "delete") else None
         tprop = op[1] if op[0] == "set" else None
+        if op[0] == "http":
+            target = op[2] if op[1] in ("PUT", "DELETE") else None
+            tprop = op[2] if op[1] == "PROPPATCH" else None
         nstates = 0
         for (k, part, cd) in crash.crash_states(events, path, pre, sc, stride=stride):
             nstates += 1
